@@ -42,7 +42,9 @@ CLAIMED = {
              'extend-and-add forms, BFC/BFI/SBFX/UBFX, PKH, REV/REV16/REVSH/RBIT/CLZ on the limb library that MC_W32 (TLC, '
              'exhaustive at limb width 4: products, signed products, division, 64-bit add/sub/compare) links to the reference. '
              'Random ARM, 16-bit and 32-bit Thumb words of all these encodings with operands biased to lane boundaries '
-             '(0x7F/0x80/0xFF, 0x7FFF/0x8000), 0, 0x80000000, 0xFFFFFFFF, prior Q/GE random, arch 5/6/7/7-R, are executed by '
+             '(0x7F/0x80/0xFF, 0x7FFF/0x8000), 0, 0x80000000, 0xFFFFFFFF, prior Q/GE random, arch 5/6/7/7-R, plus a directed grid '
+             '(every boundary lane pair at every lane placement for the 36 parallel forms, boundary pairs for QADD../multiplies, '
+             'saturation bounds +-1) are executed by '
              'emulate_cycle() and the full post-state (result registers, N/Z, sticky Q, GE, everything else unchanged) is '
              'judged by TLC.',
         note='operands are sampled; the 8/16-bit lane formulas are plain integer arithmetic in the spec (no second '
@@ -57,7 +59,7 @@ CLAIMED = {
              'field x SCTLR.{M,AFE} x TTBCR.{N,PD0,PD1} x FCSE PID x VA placement x R/W x privilege: physical address by block '
              'size, fault kind in priority order with level and domain in DFSR, DFAR, flat map with the MMU off (4e5 states '
              'quick). Conformance: random first/second-level tables written into the RAM of a VMSA-configured instance '
-             '(both SCTLR.EE settings), TTBCR.N 0..7, PD0/PD1, DACR, AFE, TRE, FCSE; translate_address() and LDR/STR are '
+             '(both SCTLR.EE settings; TTBR0 table at a random 2^(14-N)-aligned slot), TTBCR.N 0..7, PD0/PD1, DACR, AFE, TRE, FCSE; translate_address() and LDR/STR are '
              'executed and physical address, DFSR, DFAR and abort bookkeeping are judged by TLC.',
         note='long-descriptor (LPAE) walks, stage 2 translation and faults taken to Hyp mode are reported as unmodelled and '
              'not claimed; with SCTLR.TRE = 0 the emulator reaches its documented mock hook (outcome notimpl); memory '
@@ -67,13 +69,14 @@ CLAIMED = {
 
     'C20': dict(
         text='MC_Multi: TLC explores every interleaving of the creation and steps of two instances over 4 configurations '
-             '(PMSA v6, PMSA v7, VMSA v7, PMSA v6 without security extensions) x 4 configuration-sensitive programs and checks '
+             '(PMSA v6, PMSA v7, VMSA v7, PMSA v6 without security extensions) x 5 configuration-sensitive programs (one running '
+             'with SCTLR.M = 1: MPU vs MMU) and checks '
              'that each instance is in exactly the state of its solo run. Every complete schedule TLC prints (quick: every 4th) '
              'is replayed on real ArmV6 objects in one Python process without re-loading configurations, and every step is '
              'judged by TLC against the specification under that instance\'s own configuration. Determinism: deep-copied '
              'snapshots and instances with differing prior histories must produce identical step deltas (pair events judged '
              'by TLC).',
-        note='two instances, 2-3 steps each, four small programs; configuration influence through the direct Registers API '
+        note='two instances, 2-3 steps each, five small programs; configuration influence through the direct Registers API '
              '(take_*_exception called without emulate_cycle) is outside the stepping interface of the property.',
         technique='TLC model checking of the multi-instance spec + replay of every TLC schedule on the implementation judged by TLC',
         ref='DESIGN.md §4 C20'),
